@@ -16,6 +16,7 @@ type FnSpec struct {
 	Success []string // conditions dominating every non-rejecting return
 	Returns []Ret    // constraints on returned values
 	Stores  []St     // field/cell stores that must exist with the given value
+	RetAts  []RetAt  // returns of a particular value and the conditions that dominate them
 }
 
 type G struct{ Label, Want string }
@@ -36,7 +37,18 @@ type Ret struct {
 	Want  []string // allowed canonical expressions (every non-rejecting return's result must be one of them)
 }
 
-type St struct{ Label, Addr, Val string }
+type St struct {
+	Label, Addr, Val string
+	Under            []string `json:",omitempty"`
+}
+
+// RetAt: some return yields Want as result Index, and every return that does is dominated by Under.
+type RetAt struct {
+	Label string
+	Index int
+	Want  string
+	Under []string
+}
 
 func (c *Check) Spec(rule string, m Macros, s FnSpec) {
 	fn := c.F(s.Fn)
@@ -106,6 +118,28 @@ func (c *Check) Spec(rule string, m Macros, s FnSpec) {
 			c.Bad(rule, funcName(fn)+"/return:"+r.Label, fn.Pos(), "no non-rejecting return")
 		}
 	}
+	for _, ra := range s.RetAts {
+		found := false
+		for _, b := range fn.Blocks {
+			if len(b.Instrs) == 0 {
+				continue
+			}
+			ret, ok := b.Instrs[len(b.Instrs)-1].(*ssa.Return)
+			if !ok || ra.Index >= len(ret.Results) {
+				continue
+			}
+			if fa.X.E(RetVal(ret, ra.Index)).String() == m.X(ra.Want) {
+				found = true
+				c.Ok(rule, funcName(fn)+"/returns:"+ra.Label, ret.Pos(), m.Fold(ra.Want))
+				if len(ra.Under) > 0 {
+					c.Under(fn, rule, "return:"+ra.Label, m, ret, ra.Under...)
+				}
+			}
+		}
+		if !found {
+			c.Bad(rule, funcName(fn)+"/returns:"+ra.Label, fn.Pos(), "no return yields "+m.Fold(ra.Want)+" as result "+fmt.Sprint(ra.Index))
+		}
+	}
 	for _, st := range s.Stores {
 		found := false
 		var seen []string
@@ -118,6 +152,9 @@ func (c *Check) Spec(rule string, m Macros, s FnSpec) {
 						if v == m.X(st.Val) {
 							found = true
 							c.Ok(rule, funcName(fn)+"/store:"+st.Label, sto.Pos(), m.Fold(a)+" := "+m.Fold(v))
+							if len(st.Under) > 0 {
+								c.Under(fn, rule, "store:"+st.Label, m, sto, st.Under...)
+							}
 						}
 					}
 				}
